@@ -53,6 +53,7 @@ func c01Class(src string) string {
 }
 
 func runC01(r *Run) {
+	quietRun = r
 	vars := stdVars
 	corpus := []evalCase{
 		{`[{a:1,b:"x"},{b:"y",a:2}][1].a`, false}, {`[o2, o][0].p`, false}, {`[o, o2][1].p + 1`, false}, {`[o, o2]`, false}, {`if(b, o, o2).p`, false}, {`get([o], 3, o2).q`, false},
@@ -105,11 +106,16 @@ func runC01(r *Run) {
 	}
 }
 
+var quietRun *Run
+
 func judgeBackendsQuiet(c evalCase, vars []envVar) ([]outcome, bool) {
 	vals := stdValues()
 	outs := make([]outcome, len(backends))
 	for i, b := range backends {
 		outs[i] = runOn(b, c.src, vars, vals, c.withFns)
+	}
+	if quietRun != nil && len(c.src) < 4000 {
+		emitEvalCases(quietRun, c, vars, vals, outs)
 	}
 	return outs, !(outs[0].cls == "compile-error" || outs[0].cls == "compile-panic")
 }
@@ -117,6 +123,7 @@ func judgeBackendsQuiet(c evalCase, vars []envVar) ([]outcome, bool) {
 // ---------------- C02 ----------------
 
 func runC02(r *Run) {
+	quietRun = r
 	vars := stdVars
 	documented := map[string]bool{"fail:index": true, "fail:key": true, "fail:modzero": true, "fail:regex": true, "fail:host": true}
 	judge := func(c evalCase, total bool) {
@@ -207,6 +214,7 @@ func c02Class(src string, o outcome) string {
 // ---------------- C06 ----------------
 
 func runC06(r *Run) {
+	quietRun = r
 	vars := stdVars
 	n := 500
 	if r.Tier == "thorough" {
